@@ -96,3 +96,6 @@ META = {
              "encoded byte strings of 2^24 bytes or more with a wrapped length."),
     'technique': 'Coq spec + proved checker (translation validation of generated bindings by vm_compute) + extracted-model correspondence',
 }
+
+# ROUND-8-APPEND-2
+PROP['rule'] += ' Round 8: the reflection codec on targets the bindings do not use today (oracles on the implementation, c10_r8.go): kind c10.array - fixed-size byte arrays [N]byte for N in 0..300 (0,1,2,3,4,5,7,8,12,16,20,28,31,32,33,36,64,253..256,300, named array types too), bare, as a struct field followed by a word, as a vector item and as a sum variant, fed with the TL byte string of every length 0..N+5 (boundary lengths for the large N) in short and 0xfe long form: refused unless the length is exactly N, at N the value, the unread junk suffix and the re-encoding are checked (c10-array-length / c10-array-layout); kind c10.sumpos - reflectively coded sum types (declared with embedded tl.SumType at head/middle/tail, and reflect.StructOf with 1..5 variants, SumType embedded or named at every position, payloads struct/empty struct/u32/i64/bytes/string/bool/[32]byte), every variant selected, alone, by pointer, between two words of a struct and in vectors of 1/K/K+2 items: tl.Marshal = constructor id ++ reference bytes of the payload, tl.Unmarshal gives the value (discriminator + selected variant) back and leaves the junk suffix (c10-sum-position).'
